@@ -645,7 +645,14 @@ func c12KRun(c *vcore.Ctx) *vcore.Violation {
 	}
 	if ct != nil {
 		ip := containerInitPid(ct)
-		if nf := countFdsOf(ip); nf > initF {
+		nf := countFdsOf(ip)
+		// (a leak persists; what the init has not closed *yet* does not: it answers a failed launch before its
+		// deferred clean-up of the descriptors that came with the request has run)
+		for i := 0; i < 150 && nf > initF; i++ {
+			time.Sleep(20 * time.Millisecond)
+			nf = countFdsOf(ip)
+		}
+		if nf > initF {
 			return vcore.Violate(prop, "init_descriptor_growth", kind, "descriptors of the container init grew from %d to %d", initF, nf)
 		}
 		if nk := len(descendantsDirect(ip)); nk > initK {
